@@ -383,7 +383,7 @@ class Interp:
     def call_function(self, frame, name, args):
         name = name.upper()
         if name in self.procs:
-            return self.invoke(frame, self.procs[name], args, None)
+            return self.invoke(frame, self.procs[name], args, getattr(self, "cur_sid", None))
         return builtin(self, frame, name, args)
 
     def invoke(self, frame, proc, args, call_sid):
@@ -546,6 +546,12 @@ class Interp:
                         pc = ins[2]
                 elif op == "jmp":
                     pc = ins[1]
+                elif op == "exit":
+                    # EXIT SUB / EXIT FUNCTION: the activation ends here
+                    self.cur_sid = ins[1].get("id")
+                    if handler_mode or frame is self.globals:
+                        raise Discard("exit_outside_procedure")
+                    pc = n
                 elif op == "until":
                     self.cur_sid = ins[3]
                     v = self.eval(frame, ins[1])
@@ -879,6 +885,8 @@ def flatten(stmts):
             emit(("gosub", s["label"]))
         elif k == "return":
             emit(("return", s.get("label"), s.get("id")))
+        elif k == "exit":
+            emit(("exit", s))
         elif k == "onerror":
             emit(("onerror", s))
         elif k == "resume":
